@@ -10,6 +10,7 @@ import (
 
 type zzWorld struct {
 	conns []*zzMsgs // every connection ever dialed
+	rpc   []*Conn   // the Conn built on conns[i]
 	up    map[string]bool
 	dials map[string]int
 }
@@ -60,6 +61,7 @@ func zzNewTransport(z *zzWorld, maxConns, maxIdle int) *Transport {
 		if vParam("tr.directio", 1) == 1 {
 			c.directIO = true
 		}
+		z.rpc = append(z.rpc, c)
 		return c, nil
 	}
 	return t
@@ -191,12 +193,12 @@ func zzH_TRrec() {
 // call must succeed. Afterwards the unused connection is reclaimed and Close closes everything.
 func zzH_C15() {
 	z := &zzWorld{up: map[string]bool{"a": true, "b": true}, dials: map[string]int{}}
-	lim := [][2]int{{1, 1}, {2, 2}}[vChoose("limits", 2)]
+	lim := [][2]int{{1, 1}, {2, 2}}[vChoose("limits", vParam("c15.nlimits", 2))]
 	t := zzNewTransport(z, lim[0], lim[1])
 	vSetTimerBudget(vParam("c15.ticks", 2))
 	arg := []byte{0x31}
 	var reply []byte
-	warm := vChoose("warm", 2) == 1
+	warm := vChoose("warm", vParam("c15.nwarm", 2)) == 1
 	if warm {
 		// an earlier call leaves a pooled connection that may be retired before the long call
 		var r0 []byte
@@ -249,7 +251,11 @@ func zzH_C15() {
 	}
 	for i := 0; i < vParam("c15.ops", 2); i++ {
 		step()
-		switch vChoose("op", 2) {
+		op := 1
+		if vParam("c15.closeonly", 0) == 0 {
+			op = vChoose("op", 2)
+		}
+		switch op {
 		case 0:
 			vQuiesce() // ticks may fire here
 		case 1:
@@ -257,7 +263,14 @@ func zzH_C15() {
 		}
 		step()
 		if busy != nil {
-			vAssert(busy.nCloses == 0, "busy-connection-not-closed-by-housekeeping")
+			var bc *Conn
+			for i, m := range z.conns {
+				if m == busy {
+					bc = z.rpc[i]
+				}
+			}
+			// culprit sites = the callers of (*Conn).Close on that connection
+			vAssertOn(busy.nCloses == 0, "busy-connection-not-closed-by-housekeeping", bc)
 		}
 	}
 	step()
@@ -272,6 +285,85 @@ func zzH_C15() {
 	vAtEnd(func() {
 		vAssert(returned, "holder-returns")
 		vAssert(z.live("a") == 0 && z.live("b") == 0, "close-closes-every-connection")
+		vReach("end")
+	})
+}
+
+// zzH_TRlim: directed limit check. The pool is filled with MaxConnsPerHost sequential calls, a
+// housekeeping tick may retire them (idle queue smaller than the pool in two of the limit vectors),
+// the pool is filled again; after every step the number of open connections stays within the limit,
+// and Close closes every connection ever dialed.
+func zzH_TRlim() {
+	z := &zzWorld{up: map[string]bool{"a": true, "b": true}, dials: map[string]int{}}
+	lim := [][2]int{{2, 1}, {3, 1}, {3, 2}, {2, 2}}[vChoose("limits", vParam("trlim.limits", 4))]
+	t := zzNewTransport(z, lim[0], lim[1])
+	vSetTimerBudget(vParam("tr.ticks", 2))
+	arg := []byte{0x31}
+	for round := 0; round < vParam("trlim.rounds", 2); round++ {
+		for i := 0; i < lim[0]; i++ {
+			var reply []byte
+			vAssert(t.Call("a", "S.Echo", &arg, &reply) == nil, "reply-ok")
+			vAssert(z.live("a") <= lim[0], "open-conns-within-MaxConnsPerHost")
+		}
+		vQuiesce()
+		vAssert(z.live("a") <= lim[0], "open-conns-within-MaxConnsPerHost")
+		if cq, ok := t.idleConns["a"]; ok {
+			vAssert(cq.Length() <= lim[1], "idle-conns-within-MaxIdleConnsPerHost")
+		}
+	}
+	t.Close()
+	vAtEnd(func() {
+		vAssert(z.live("a") == 0, "close-closes-every-connection")
+		vAssert(vBlocked() == 0, "all-goroutines-exit-after-close")
+		vReach("end")
+	})
+}
+
+// zzH_TRcc: two concurrent callers hit a pool whose only connection died (server killed and
+// restarted); dialing takes time. The number of open connections must stay within the limit and every
+// dialed connection must be closed by Close.
+func zzH_TRcc() {
+	z := &zzWorld{up: map[string]bool{"a": true, "b": true}, dials: map[string]int{}}
+	lim := [][2]int{{1, 1}, {2, 2}}[vChoose("limits", 2)]
+	t := zzNewTransport(z, lim[0], lim[1])
+	slow := t.Dial
+	t.Dial = func(network, address, codec string) (*Conn, error) {
+		vYield() // dialing takes time
+		return slow(network, address, codec)
+	}
+	vSetTimerBudget(0)
+	arg := []byte{0x31}
+	for i := 0; i < lim[0]; i++ {
+		var r []byte
+		vAssert(t.Call("a", "S.Echo", &arg, &r) == nil, "reply-ok")
+	}
+	vQuiesce()
+	z.kill("a")
+	vQuiesce()
+	z.up["a"] = true
+	// one failing call per pooled connection marks them dead
+	for i := 0; i < lim[0]; i++ {
+		var r []byte
+		t.Call("a", "S.Echo", &arg, &r)
+	}
+	N := vParam("trcc.callers", 2)
+	done := make([]bool, N)
+	for i := 0; i < N; i++ {
+		i := i
+		vGo("caller", func() {
+			var r []byte
+			t.Call("a", "S.Echo", &arg, &r)
+			done[i] = true
+		})
+	}
+	vQuiesce()
+	vAssert(z.live("a") <= lim[0], "open-conns-within-MaxConnsPerHost")
+	t.Close()
+	vAtEnd(func() {
+		for i := 0; i < N; i++ {
+			vAssert(done[i], "caller-returns")
+		}
+		vAssert(z.live("a") == 0, "close-closes-every-connection")
 		vReach("end")
 	})
 }
